@@ -17,7 +17,7 @@ SKIP_FUNCS = {"execute", "run", "readln", "read", "read_all", "process_lines", "
 # ------------------------------------------------------------------ value pool (factories: mutators get fresh values)
 
 POOL_SRC = [
-    "NULL", "TRUE", "FALSE", "0", "1", "-1", "3", "0.0", "1.5", "-2.5", "0.00001", "''", "'a'", "'abc'", "'12'", "' '",
+    "NULL", "TRUE", "FALSE", "0", "1", "-1", "3", "0.0", "1.5", "-2.5", "0.00001", "''", "'a'", "'abc'", "'12'", "'123456789'", "' '",
     "date('20200229')", "//a+//", "[]", "[1, 2]", "['a']", "[[1, 2], [3, 4]]", "[1, 1, 1]", "'aaa'", "<<>>", "<<1, 2>>", "<<<>>>",
     "<<<'a' => 1>>>", "<**>", "<*a = 1*>", "fn(x) x", "fn(a, b) a",
     # collections mixing kinds (their enumeration order needs the cross-kind order)
